@@ -87,11 +87,18 @@ class Lib:
         if a in ("size", "ndim", "nbytes"):
             return INT
         if a == "value" and isinstance(n.value, ast.Subscript):
-            # <params>[<str key>].value  -- lmfit Parameter.value
-            sv = it.eval(n.value.slice, env)
-            if sv.num == "str":
-                return AV(num="float", exact=False,
-                          src=frozenset({"lmfit.Parameter.value"}))
+            # <params>[<str key>].value  -- lmfit Parameter.value: a float
+            # once the Parameters object went through deepcopy / pickle /
+            # minimize (lmfit re-initialises bounds and coerces the value)
+            pv = it.eval(n.value.value, env)
+            if any(x.startswith("coerced") for x in pv.src):
+                return AV(num="float", exact=False, src=frozenset(
+                    {"lmfit.value.coerced"}) | frozenset(
+                        x for x in pv.src if x.startswith("coerced")))
+            return TOP
+        if a == "params" and base.cls == "lmfit.MinimizerResult":
+            return AV(num="obj", cls="lmfit.Parameters",
+                      src=frozenset({"coerced:minimize-result"}))
         if a in ("start", "stop") and base.cls == "slice":
             return INT
         if a == "T" and base.elem is not None:
@@ -133,6 +140,22 @@ class Lib:
             if r is not None:
                 return r
         if dotted:
+            if dotted == "lmfit.Parameters":
+                return AV(num="obj", cls="lmfit.Parameters",
+                          src=frozenset({"fresh"}))
+            if dotted in ("copy.deepcopy", "copy.copy", "pickle.loads") and \
+                    args and args[0].cls == "lmfit.Parameters":
+                return args[0].with_(src=frozenset({"coerced:deepcopy"}))
+            if dotted in ("lmfit.minimize",):
+                pav = AV(num="obj", cls="lmfit.Parameters",
+                         src=frozenset({"coerced:minimize-callback"}))
+                if it.world is not None:
+                    cbs = list(args[:1]) + [kwargs[k] for k in ("Dfun",)
+                                            if k in kwargs]
+                    for cb in cbs:
+                        if cb.cls and cb.cls.startswith("func:"):
+                            it.world.bind_callback(cb.cls[5:], 0, pav)
+                return AV(num="obj", cls="lmfit.MinimizerResult")
             if dotted in INT_ARRAY_RESULT:
                 return INT_ARRAY
             if dotted in INT_RESULT:
@@ -183,8 +206,6 @@ class Lib:
                 if args and args[0].elem is not None and \
                         args[0].elem.num == "int":
                     return INT
-            if dotted == "lmfit.Parameters":
-                return AV(num="obj", cls="lmfit.Parameters")
             if dotted == "numpy.isfinite" or dotted == "numpy.isnan":
                 return BOOL if not (args and args[0].elem is not None) else \
                     container(BOOL, cls="ndarray")
@@ -222,8 +243,7 @@ class Lib:
         if name == "len":
             return INT
         if name == "int":
-            src = args[0].src if args else frozenset()
-            return AV(num="int", exact=True, src=src,
+            return AV(num="int", exact=True,
                       cval=int(args[0].cval) if args and
                       isinstance(args[0].cval, (int, float)) and
                       args[0].cval == args[0].cval and
